@@ -155,6 +155,12 @@ def oracle(sc):
         return {"sig": "transform-shape-or-raise", "what": repr(d)}
     if np.any(d < 0) or not core.close(d, ref, 1e-8, 1e-9 * float(ref.max())):
         return {"sig": "distances-not-squared-euclidean", "what": f"max deviation {np.max(np.abs(d - ref))}"}
+    for name, f in (("dask", lambda: np.asarray(m.transform(dask_of(sc)).compute())), ("single", lambda: np.hstack([np.asarray(m.transform(row)).reshape(len(cent), 1) for row in x]))):
+        dd = core.impl(f)
+        if isinstance(dd, core.ImplError) or dd.shape != ref.shape:
+            return {"sig": "transform-shape-or-raise", "what": f"{name}: {dd!r}"}
+        if np.any(dd < 0) or not core.close(dd, ref, 1e-8, 1e-9 * float(ref.max())):
+            return {"sig": "distances-not-squared-euclidean", "what": f"{name}: max deviation {np.max(np.abs(dd - ref))} (largest distance {float(ref.max())})"}
     lab_ref = np.argmin(ref, axis=0)
     for name, f in (("numpy", lambda: np.asarray(m.predict(x))), ("dask", lambda: np.asarray(m.predict(dask_of(sc)).compute())),
                     ("single", lambda: np.array([int(np.asarray(m.predict(row)).reshape(-1)[0]) for row in x]))):
